@@ -156,7 +156,7 @@ fn peek(w: &World) -> &Value<VTr> {
     unsafe { &*IngredientImpl::<VTr>::data_raw(w.zalsa.table(), w.id) }
 }
 
-// @verif prop=C06,C03,C01,C07 obl=O4 tier=thorough bounds="one page-backed tracked struct (1 identity + 1 tracked u32 field); symbolic old/new field values, old updated_at in [1, now], old/new durability, old field revision <= old updated_at, new stamp changed_at <= now, stored generation (full u32); arbitrary INV runtime state"
+// @verif prop=C06,C03,C01,C07,C02,C23 obl=O4 tier=thorough bounds="one page-backed tracked struct (1 identity + 1 tracked u32 field); symbolic old/new field values, old updated_at in [1, now], old/new durability, old field revision <= old updated_at, new stamp changed_at <= now, stored generation (full u32); arbitrary INV runtime state"
 // @+ encodes="tracked_struct::IngredientImpl::<VTr>::update, IngredientImpl::data_raw, IngredientImpl::clear_memos, OptionalAtomicRevision::load/swap, Id::next_generation, update_field, MemoTableWithTypesMut::take_memos, MemoTable::reset, Table::get_raw"
 /// C06-O4: re-creating a struct with the same identity field value keeps its id (same slot, same generation);
 /// the tracked field's revision moves to the creator's changed_at iff its value differs or the durability decreased
